@@ -140,21 +140,27 @@ InitWith(name) == /\ nodes = <<>>     \* a function path -> node with empty doma
 Without(t, p) == [q \in {q \in DOMAIN t : ~IsPrefix(p, q)} |-> t[q]]
 
 (* ---- actions ------------------------------------------------------------------- *)
+(* The effect of a step on the tree is written as a function of the current tree (XTree(s)) so that the trace
+   specification can also ask "what would the tree be had this step taken effect" for a request that was never
+   answered. *)
+
 (* CreateBundle (381) / CreateCategory (382): s.path is the parent, s.name the new item.
    CreateGroupingOverwrites: an existing item of that name is replaced by an empty one. *)
-Create(s) ==
+CreateTree(s) ==
   LET p == Append(s.path, s.name)
       kind == IF s.op = "mkbundle" THEN 2 ELSE 3
       keep == {q \in DOMAIN nodes : ~IsPrefix(p, q)}
-  IN /\ Exists(s.path)
-     /\ nodes' = [q \in keep \cup {p} |-> IF q = p THEN [kind |-> kind, arts |-> <<>>] ELSE nodes[q]]
-     /\ disk' = nodes'
-     /\ out' = [op |-> s.op, path |-> p, overwrote |-> p \in DOMAIN nodes]
-     /\ UNCHANGED uname
+  IN [q \in keep \cup {p} |-> IF q = p THEN [kind |-> kind, arts |-> <<>>] ELSE nodes[q]]
+Create(s) ==
+  /\ Exists(s.path)
+  /\ nodes' = CreateTree(s)
+  /\ disk' = nodes'
+  /\ out' = [op |-> s.op, path |-> Append(s.path, s.name), overwrote |-> Append(s.path, s.name) \in DOMAIN nodes]
+  /\ UNCHANGED uname
 
 (* Post (410): s.parent = 0 starts a thread, otherwise it is a reply to that article.  s.date is the time stamp
    the server gives the article (the environment's clock). *)
-Post(s) ==
+PostTree(s) ==
   LET p == s.path
       a == nodes[p].arts
       id == NewId(a)
@@ -165,22 +171,25 @@ Post(s) ==
       a1 == IF hasPrev THEN [a EXCEPT ![m].next = id] ELSE a
       a2 == IF s.parent # 0 /\ a1[s.parent].first = 0 THEN [a1 EXCEPT ![s.parent].first = id] ELSE a1   \* FirstChildSticks
       a3 == (id :> art) @@ a2
-  IN /\ p \in DOMAIN nodes
-     /\ s.parent = 0 \/ s.parent \in DOMAIN a
-     /\ nodes' = [nodes EXCEPT ![p].arts = a3]
-     /\ disk' = nodes'
-     /\ out' = [op |-> "post", path |-> p, id |-> id, parent |-> s.parent]
-     /\ UNCHANGED uname
+  IN [nodes EXCEPT ![p].arts = a3]
+Post(s) ==
+  /\ s.path \in DOMAIN nodes
+  /\ s.parent = 0 \/ s.parent \in DOMAIN nodes[s.path].arts
+  /\ nodes' = PostTree(s)
+  /\ disk' = nodes'
+  /\ out' = [op |-> "post", path |-> s.path, id |-> NewId(nodes[s.path].arts), parent |-> s.parent]
+  /\ UNCHANGED uname
 
 (* DeleteArticle (411): removes that article and nothing else (DeleteLeavesLinks); no such article: nothing. *)
+DelArtHit(s) == s.path \in DOMAIN nodes /\ s.id \in DOMAIN ArtsAt(s.path)
+DelArtTree(s) ==
+  LET a == ArtsAt(s.path) IN
+  IF DelArtHit(s) THEN [nodes EXCEPT ![s.path].arts = [i \in DOMAIN a \ {s.id} |-> a[i]]] ELSE nodes
 DeleteArticle(s) ==
-  LET p == s.path
-      a == ArtsAt(p)
-      hit == p \in DOMAIN nodes /\ s.id \in DOMAIN a
-  IN /\ nodes' = IF hit THEN [nodes EXCEPT ![p].arts = [i \in DOMAIN a \ {s.id} |-> a[i]]] ELSE nodes
-     /\ disk' = nodes'
-     /\ out' = [op |-> "delart", path |-> p, id |-> s.id, hit |-> hit]
-     /\ UNCHANGED uname
+  /\ nodes' = DelArtTree(s)
+  /\ disk' = nodes'
+  /\ out' = [op |-> "delart", path |-> s.path, id |-> s.id, hit |-> DelArtHit(s)]
+  /\ UNCHANGED uname
 
 (* DeleteItem (380): removes the bundle/category at s.path with everything below it; no such item: nothing. *)
 DeleteItem(s) ==
@@ -226,6 +235,15 @@ Guard(s) ==
     [] s.op = "delitem" -> s.path # <<>>
     [] s.op \in {"get", "list", "cats", "reload", "setname"} -> TRUE
     [] OTHER -> FALSE
+
+(* the tree after the step, given that Guard(s) holds *)
+TreeAfter(s) ==
+  CASE s.op \in {"mkbundle", "mkcat"} -> CreateTree(s)
+    [] s.op = "post"    -> PostTree(s)
+    [] s.op = "delart"  -> DelArtTree(s)
+    [] s.op = "delitem" -> Without(nodes, s.path)
+    [] s.op = "reload"  -> disk
+    [] OTHER -> nodes
 
 Apply(s) ==
   CASE s.op \in {"mkbundle", "mkcat"} -> Create(s)
